@@ -49,6 +49,7 @@ def classifyB (s : List Int) : Option DEntry :=
     | _ => none
   else some (.lit (s.map Int.toNat))
 
+when_kernel Gzx.Gen.K11c.getCharacter in
 /-- the model's tables are the regenerated tables, classified -/
 def TablesAgreeA (T : Tables) : Prop :=
   Gen.K11c.tbl_UPPER_TABLE.mapM classifyB = some T.upper ∧ Gen.K11c.tbl_LOWER_TABLE.mapM classifyB = some T.lower
@@ -57,9 +58,11 @@ def TablesAgreeA (T : Tables) : Prop :=
   ∧ (∀ s ∈ Gen.K11c.tbl_UPPER_TABLE ++ Gen.K11c.tbl_LOWER_TABLE ++ Gen.K11c.tbl_MIXED_TABLE ++ Gen.K11c.tbl_PUNCT_TABLE
       ++ Gen.K11c.tbl_DIGIT_TABLE, ∀ x ∈ s, 0 ≤ x ∧ x < 256)
 
+when_kernel Gzx.Gen.K11c.getCharacter in
 instance (T : Tables) : Decidable (TablesAgreeA T) := by unfold TablesAgreeA; infer_instance
 
 set_option maxRecDepth 100000 in
+when_kernel Gzx.Gen.K11c.getCharacter in
 /-- the regenerated `[]string` tables, classified, are the reference tables of ISO/IEC 24778 -/
 theorem tablesA_ref : TablesAgreeA AztecLink.refTables := by decide
 
